@@ -52,6 +52,7 @@ func runC16(c *wk.Ctx) {
 			continue
 		}
 		if i%4 == 3 {
+			c.Obs("truncated_frames_tried", 1)
 			f = gen.Mutate(r, f, "truncate") // cut short: whatever Parse still accepts must keep its views inside the frame
 			if len(f.B) == 0 {
 				continue
